@@ -122,7 +122,7 @@ NumBig == { <<"2", "1", "4", "7", "4", "8", "3", "6", "4", "6">>, <<"2", "1", "4
             <<"-", "2", "1", "4", "7", "4", "8", "3", "6", "4", "7">>, <<"2", "1", "4", "7", "4", "8", "3", "6", "4", "6", ".", "5">> }
 Nums == IF Wide THEN NumQuick \cup NumMore \cup NumBig ELSE NumQuick \cup NumBig
 \* ranges: ends and probes on, just inside, just outside, far from both ends; equal ends
-RangeQuick == { <<"-", "1">>, <<"9", ".", "9", "9">>, <<"1", "0">>, <<"1", "0", ".", "0">>, <<"1", "0", ".", "0", "1">>,
+RangeQuick == { <<"0">>, <<"-", "0">>, <<"-", "1">>, <<"9", ".", "9", "9">>, <<"1", "0">>, <<"1", "0", ".", "0">>, <<"1", "0", ".", "0", "1">>,
                 <<"1", "5">>, <<"1", "9", ".", "9", "9">>, <<"2", "0">>, <<"2", "0", ".", "0", "1">> }
 RangeNums == IF Wide THEN RangeQuick \cup { <<"0">>, <<"-", "0", ".", "5">>, <<"2", "0", ".", "0">>, <<"1", "0", "0">>,
                                             <<"-", "1", "0">>, <<"1", "4", ".", "9", "9">> }
@@ -179,6 +179,11 @@ InAlpha == {"a", "b", "1"}
 InCases == {Case("in", "<in>", v, <<>>, <<w>>, "", "") :
                v \in Words(InAlpha, IF Wide THEN 4 ELSE 3), w \in Words(InAlpha, 2) \ {<<>>}}
 
+\* values that look like list / tuple / set literals are strings all the same: <in> looks for a substring of the text
+LiteralLooking == { <<"[", "'", "a", "b", "'", ",", " ", "'", "1", "'", "]">>, <<"[", "1", "1", ",", " ", "1", "]">>,
+                    <<"(", "'", "a", "b", "'", ",", ")">>, <<"{", "'", "a", "b", "'", "}">>, <<"[", "]">>, <<"'", "a", "b", "'">> }
+InLiteralCases == {Case("in", "<in>", v, <<>>, <<w>>, "", "") :
+                     v \in LiteralLooking, w \in { <<"a">>, <<"1">>, <<"a", "b">>, <<"b", "'">>, <<"1", "1">>, <<"b", "a">> }}
 NumCases == {Case("num", op, v, <<>>, <<w>>, "", "") : op \in NumOps, v \in Nums, w \in Nums}
 
 Brackets == {<<"[", "]">>, <<"[", ")">>, <<"(", "]">>, <<"(", ")">>}
@@ -208,7 +213,7 @@ Layouts == IF Wide THEN {"single", "double", "tab", "lead", "trail", "padded", "
            ELSE {"single", "padded", "glued"}
 
 \* (a disjunction, not one big union: TLC would evaluate and sort the union eagerly)
-Init == \/ c \in StrCases \/ c \in InCases \/ c \in NumCases
+Init == \/ c \in StrCases \/ c \in InCases \/ c \in InLiteralCases \/ c \in NumCases
         \/ c \in RangeCases \/ c \in OrCases \/ c \in AllInCases
 Next == FALSE /\ UNCHANGED vars
 Spec == Init /\ [][Next]_vars
